@@ -255,6 +255,10 @@ class LinAI:
                 return v + Lin.const(1 if n["op"] == "++" else -1)
             return Lin.var(self.fresh("v", i))
         if k == "ConditionalOperator":
+            # the selector is a location whose truth this state knows (`p ? p : q` in the disjunct where p is non-null)
+            ck = self.loc_key(f.strip(c[0]))
+            if ck is not None and st.facts.get(ck) is not None:
+                return self.ev(st, c[1] if st.facts[ck] else c[2])
             t = Lin.var(self.fresh("sel", i))
             a, b = self.ev(st, c[1]), self.ev(st, c[2])
             cn = f.nodes[f.strip(c[0])]
@@ -400,6 +404,18 @@ class LinAI:
             for other in list(env.values()) + [va, vb]:
                 cands.add(_normalise(Lin.var(s) - other))
                 cands.add(_normalise(other - Lin.var(s)))
+        # a fact about the old value of a joined location, restated for the joined symbol (`start + n <= buf + cap` on one side,
+        # `start == buf` on the other: the restated fact holds on both)
+        for side_cons, idx in ((ca, 1), (cb, 2)):
+            m = {}
+            for t in newsyms:
+                old = t[idx]
+                if len(old.c) == 1 and old.k == 0 and list(old.c.values())[0] == 1:
+                    m[list(old.c)[0]] = Lin.var(t[0])
+            if m:
+                for c in side_cons:
+                    if any(v in c.c for v in m):
+                        cands.add(_normalise(c.subst(m)))
         keep = set()
         for c in cands:
             if not c.c:
@@ -411,19 +427,39 @@ class LinAI:
             pass
         return State(env, keep, facts)
 
-    def run(self, init):
+    def run(self, init, disjuncts=4):
+        """forward analysis.  States that disagree on a boolean fact (e.g. nullness of the owned pointer) are kept apart (at most
+        `disjuncts` of them per program point) instead of being joined: `if(!p && !c) return; if(c) {..}` then knows p != 0 on the
+        path where c is false.  returns (in-states, at-states) whose values are tuples of State"""
         f = self.f
 
-        def transfer(st, e):
-            return self.transfer(st, e)
+        def sig(st):
+            return tuple(sorted((k, v) for k, v in st.facts.items()))
 
-        def refine(st, blk, k):
+        def norm(sts):
+            groups = {}
+            for st in sts:
+                if st is None:
+                    continue
+                k = sig(st)
+                groups[k] = st if k not in groups else self.join(groups[k], st)
+            out = list(groups.values())
+            while len(out) > disjuncts:
+                a = out.pop()
+                out[-1] = self.join(out[-1], a)
+            return tuple(out)
+
+        def transfer(sts, e):
+            return norm([self.transfer(st, e) for st in sts])
+
+        def refine(sts, blk, k):
             c = blk.get("cond")
             if c is None or len(blk["succ"]) != 2 or blk.get("tk") == "SwitchStmt":
-                return st
-            return self.cond(st, c, k == 0)
+                return sts
+            out = norm([self.cond(st, c, k == 0) for st in sts])
+            return out if out else None
 
         def join(a, b):
-            return self.join(a, b)
+            return norm(list(a) + list(b))
 
-        return q.forward(f, init, transfer, refine, join, max_iter=400)
+        return q.forward(f, (init,), transfer, refine, join, max_iter=400)
